@@ -17,14 +17,14 @@ import (
 // C19: fft package = DFT definition, inverse round trip, constructor and length validation.
 
 type c19Case struct {
-	Kind  string  `json:"kind"` // transform | new | mismatch
-	Exp   int     `json:"exp,omitempty"`
-	Input string  `json:"input,omitempty"` // impulse | tone | random | pm1 | explicit
-	Pos   int     `json:"pos,omitempty"`
-	Seed  uint64  `json:"seed,omitempty"`
+	Kind  string    `json:"kind"` // transform | new | mismatch
+	Exp   int       `json:"exp,omitempty"`
+	Input string    `json:"input,omitempty"` // impulse | tone | random | pm1 | explicit
+	Pos   int       `json:"pos,omitempty"`
+	Seed  uint64    `json:"seed,omitempty"`
 	Vals  []float64 `json:"vals,omitempty"` // explicit: re,im pairs
-	Arg   int     `json:"arg,omitempty"` // constructor argument / wrong slice length
-	Procs int     `json:"gomaxprocs,omitempty"`
+	Arg   int       `json:"arg,omitempty"`  // constructor argument / wrong slice length
+	Procs int       `json:"gomaxprocs,omitempty"`
 }
 
 func (c c19Case) vector() []complex128 {
@@ -145,6 +145,23 @@ func checkC19(c c19Case) (out Outcome, err error) {
 			}()
 			if !refused {
 				return out, violation("mismatch-computed", "transformer for N=%d computed on a slice of length %d (inverse=%v) instead of refusing", N, c.Arg, inverse)
+			}
+			// a refused call must leave the transformer (and a new one for the same length) usable: unit impulse at 1 -> exp(-2 pi i k/N)
+			if N <= 1<<16 {
+				for _, g := range []fft.FFT{f, mustNew(N)} {
+					imp := make([]complex128, N)
+					imp[1%N] = 1
+					y := g.Transform(imp)
+					for _, kk := range []int{0, 1, N / 4, N / 2, N - 1} {
+						w := cmplx.Exp(complex(0, -2*math.Pi*float64(kk)/float64(N)))
+						if N == 1 {
+							w = 1
+						}
+						if cmplx.Abs(y[kk]-w) > 1e-9 {
+							return out, violation("after-refusal", "transformer for N=%d after a refused call on a slice of length %d (inverse=%v): impulse response wrong at bin %d: %v want %v", N, c.Arg, inverse, kk, y[kk], w)
+						}
+					}
+				}
 			}
 		}
 		return out, nil
@@ -337,4 +354,12 @@ func TestC19FirstCall(t *testing.T) {
 		cases = append(cases, c19Case{Kind: "new", Arg: a})
 	}
 	enumerate(t, "C19", cases, checkC19)
+}
+
+func mustNew(n int) fft.FFT {
+	f, err := fft.New(n)
+	if err != nil {
+		panic(err)
+	}
+	return f
 }
